@@ -87,6 +87,11 @@ func vpC17_O1() {
 		sN = new(big.Int).Add(N, vpBigRange("dn", big.NewInt(1), big.NewInt(1<<20)))
 	}
 	s := NewValidKeyProofStructure(sN, []*big.Int{big.NewInt(4)})
+	// wiring of the structure: which committed value each part talks about
+	half := uint((sN.BitLen() + 1) / 2)
+	vpAssert("the parts of the key proof structure talk about p, q, p', q' and N", s.p.name == "p" && s.q.name == "q" && s.pprime.name == "pprime" && s.qprime.name == "qprime" &&
+		s.pprimeIsPrime.primeName == "pprime" && s.qprimeIsPrime.primeName == "qprime" && s.pprimeIsPrime.bitlen == half && s.qprimeIsPrime.bitlen == half &&
+		s.n.Cmp(sN) == 0 && s.basesValid.n.Cmp(sN) == 0 && len(s.basesValid.squares) == 1)
 
 	// prover (as in BuildProof)
 	list, PprimeSecret := s.pprime.commitmentsFromSecrets(g, nil, pprime)
